@@ -73,7 +73,8 @@ def encircled_energy(data,
     rad = numpy.append(0, rad)
     ee = numpy.append(0, ee)
     ee /= numpy.sum(data)
-    xi = numpy.linspace(0, dim, int(4 * dim))
+    # rad holds equivalent diameters up to that of the inscribed circle (2*dim)
+    xi = numpy.linspace(0, 2 * dim, int(8 * dim))
     yi = numpy.interp(xi, rad, ee)
 
     if eeDiameter is False:
